@@ -72,6 +72,12 @@ pub fn vsum_prefix_u32(v: &Vec<u32>, n: usize) -> (r: u64)
 pub fn vsum_all_u32(v: &Vec<u32>) -> (r: u64)
     ensures r == sum_u32(v@, v@.len()),
 { v.iter().map(|s| u64::from(*s)).sum() }
+/// Iterator::sum::<u32>() over the first n entries: u32 additions, so the total must fit (overflow panics in the checked profile)
+#[verifier::external_body]
+pub fn vsum_prefix_u32_narrow(v: &Vec<u32>, n: usize) -> (r: u32)
+    requires sum_u32(v@, smin_nat(n as nat, v@.len())) <= u32::MAX,
+    ensures r == sum_u32(v@, smin_nat(n as nat, v@.len())),
+{ v.iter().take(n).sum() }
 pub open spec fn smin_nat(a: nat, b: nat) -> nat { if a <= b { a } else { b } }
 
 // i64::unsigned_abs (Rust reference: |x| as u64, exact for i64::MIN)
